@@ -155,3 +155,9 @@ def post(ctx, bins):
                                   "R2: partial = ok (v, n), n > 0, but complete on the first n bytes is not ok v", mr))
     ctx["post_evaluations"] = nrel
     return viol
+
+
+def classify(v):
+    """call-site classes of known findings (findlib.py)"""
+    import findlib
+    return findlib.c11_class(v["op"], v["implementation"])
